@@ -4,6 +4,7 @@ package main
 
 import (
 	"math/big"
+	"sort"
 	"strconv"
 	"strings"
 
@@ -56,6 +57,54 @@ func init() {
 			out[i] = hexOut([]byte(ss[i]))
 		}
 		return strings.Join(out, " ")
+	})
+	// natsort.Strings returns a Less-sorted permutation, the same for every input order
+	reg("nat.sorted", func(a []string) string {
+		ss := make([]string, len(a))
+		for i := range a {
+			ss[i] = string(unhexArg(a[i]))
+		}
+		sorted := append([]string(nil), ss...)
+		verifhook.NatStrings(sorted)
+		for i := 0; i+1 < len(sorted); i++ {
+			if verifhook.NatLess(sorted[i+1], sorted[i]) {
+				return "FAIL not-sorted"
+			}
+		}
+		cnt := map[string]int{}
+		for _, x := range ss {
+			cnt[x]++
+		}
+		for _, x := range sorted {
+			cnt[x]--
+		}
+		for _, c := range cnt {
+			if c != 0 {
+				return "FAIL not-permutation"
+			}
+		}
+		// other input orders: reversed, rotated, plain-bytewise sorted
+		variants := [][]string{}
+		rev := append([]string(nil), ss...)
+		for i, j := 0, len(rev)-1; i < j; i, j = i+1, j-1 {
+			rev[i], rev[j] = rev[j], rev[i]
+		}
+		variants = append(variants, rev)
+		if len(ss) > 1 {
+			variants = append(variants, append(append([]string(nil), ss[1:]...), ss[0]))
+		}
+		bw := append([]string(nil), ss...)
+		sort.Strings(bw)
+		variants = append(variants, bw)
+		for _, v := range variants {
+			verifhook.NatStrings(v)
+			for i := range v {
+				if v[i] != sorted[i] {
+					return "FAIL order-dependent"
+				}
+			}
+		}
+		return "ok"
 	})
 	// order laws on the real comparison function
 	reg("nat.law", func(a []string) string {
@@ -135,6 +184,12 @@ func init() {
 		switch a[1] {
 		case "dec":
 			lit = n.String()
+		case "dec0": // leading zeros are still decimal
+			if n.Sign() < 0 {
+				lit = "-00" + new(big.Int).Neg(n).String()
+			} else {
+				lit = "0" + n.String()
+			}
 		case "u0x":
 			lit = "u0x" + strings.ToUpper(n.Text(16))
 		case "u0xl":
